@@ -417,12 +417,23 @@ def misc_cases():
             yield {"k": "case", "pos": pos, "whens": n}
     for stmt in ("select", "insert", "update", "delete", "update_join", "update_from"):
         for what in ("str", "own_field", "foreign_field", "literal", "arith_own", "arith_foreign", "function", "star", "aggregate",
-                     "joined_field", "from_field", "arith_mixed", "arith_mixed_swapped", "tuple_mixed"):
+                     "joined_field", "from_field", "arith_mixed", "arith_mixed_swapped", "tuple_mixed",
+                     "same_name_other_schema", "same_name_nested_schema", "alias_named_like_target", "same_name_other_schema_arith",
+                     "own_field_equal_twin"):
             yield {"k": "returning", "stmt": stmt, "what": what}
     for name in ("into", "update", "delete", "delete_after_select", "update_after_select", "create_table", "primary_key", "drop_table",
                  "for_", "for_portion", "for_then_portion", "mysql_rollup", "rows_range", "columns_after_as_select",
                  "as_select_after_columns", "select_str_no_from", "mysql_rollup_empty", "insert_no_table", "columns_no_table"):
         yield {"k": "oneshot", "name": name}
+    # rollup(): every sequence of up to three calls over {plain, mysql without terms, mysql with a term} on a query with /
+    # without GROUP BY; reference model: WITH ROLLUP closes the clause (any later rollup() is rejected), a mysql rollup
+    # without any group is rejected, everything else is accepted
+    kinds = ("plain", "mysql", "mysql_term")
+    for n in (1, 2, 3):
+        for seq in itertools.product(kinds, repeat=n):
+            for grouped in (False, True):
+                for cls in ("generic", "mysql"):
+                    yield {"k": "rollup_seq", "seq": list(seq), "grouped": grouped, "cls": cls}
 
 
 def run_case_term(case, res):
@@ -464,10 +475,16 @@ def run_returning(case, res):
     arg = {"str": "id", "own_field": t.id, "foreign_field": Table("zz").x, "literal": 1, "arith_own": t.a + 1,
            "arith_foreign": Table("zz").x + 1, "function": FN.Lower(t.a), "star": "*", "aggregate": FN.Count(t.a),
            "joined_field": u.x, "from_field": u.x, "arith_mixed": t.a + Table("zz").x, "arith_mixed_swapped": Table("zz").x + t.a,
-           "tuple_mixed": (t.a, Table("zz").x)}[what]
+           "tuple_mixed": (t.a, Table("zz").x),
+           # tables that only share the written name with the statement's table are other tables
+           "same_name_other_schema": Table("t", schema="archive").x, "same_name_nested_schema": Table("t", schema=("db", "s")).x,
+           "alias_named_like_target": Table("xyz", alias="t").x, "same_name_other_schema_arith": Table("t", schema="archive").x + 1,
+           # an equal but distinct Table object is the same table
+           "own_field_equal_twin": Table("t").id}[what]
     if not dml:
         exp = QueryException
-    elif what in ("foreign_field", "arith_foreign", "function", "aggregate", "arith_mixed", "arith_mixed_swapped", "tuple_mixed"):
+    elif what in ("foreign_field", "arith_foreign", "function", "aggregate", "arith_mixed", "arith_mixed_swapped", "tuple_mixed",
+                  "same_name_other_schema", "same_name_nested_schema", "alias_named_like_target", "same_name_other_schema_arith"):
         exp = QueryException
     else:
         exp = None
@@ -484,6 +501,46 @@ def run_returning(case, res):
         res.violate("C14|returning|%s|%s|%s" % (stmt if not dml else "dml", what, "missed-rejection" if got is None else
                                                 ("false-rejection" if exp is None else "wrong:" + got.__name__)),
                     "returning(%s) on %s: expected %s, got %s" % (what, stmt, exp and exp.__name__, got and got.__name__), case=case)
+
+
+def run_rollup_seq(case, res):
+    from pypika_tortoise.exceptions import RollupException as RE
+
+    Q = MySQLQuery if case["cls"] == "mysql" else Query
+    t = Table("t")
+    q = Q.from_(t).select(t.a)
+    groups = 0
+    if case["grouped"]:
+        q = q.groupby(t.a)
+        groups = 1
+    closed = False
+    res.nontrivial = 1
+    for i, k in enumerate(case["seq"]):
+        if closed:
+            exp = AttributeError
+        elif k == "mysql" and groups == 0:
+            exp = RE
+        else:
+            exp = None
+        try:
+            q2 = {"plain": lambda: q.rollup(t.b), "mysql": lambda: q.rollup(vendor="mysql"), "mysql_term": lambda: q.rollup(t.c, vendor="mysql")}[k]()
+            str(q2)
+            got = None
+        except Exception as e:
+            got = type(e)
+        res.transitions += 1
+        if got is not exp:
+            res.violate("C14|rollup|%s|%s" % ("after-with-rollup" if closed else k, "missed-rejection" if got is None else
+                                              ("false-rejection" if exp is None else "wrong:" + got.__name__)),
+                        "rollup sequence %s (step %d): expected %s, got %s" % (case["seq"], i, exp and exp.__name__, got and got.__name__), case=case)
+            return
+        if exp is not None:
+            return
+        q = q2
+        groups += 1
+        if k in ("mysql", "mysql_term"):
+            closed = True
+    res.outcomes.append(h64(str(q)))
 
 
 def run_oneshot(case, res):
@@ -565,6 +622,8 @@ def run_case(case):
         run_case_term(case, res)
     elif k == "returning":
         run_returning(case, res)
+    elif k == "rollup_seq":
+        run_rollup_seq(case, res)
     else:
         run_oneshot(case, res)
     res.states.append(h64(repr(sorted(case.items()))))
